@@ -322,21 +322,27 @@ Section WithCodec.
     | _ => d
     end.
 
-  Lemma read_text_eval : forall st rest indent le nl nlb t' b' lines,
-    In le GenText.line_endings_values -> assoc_get beq le GenText.newline_formats = Some nl ->
+  (* the newline the reader works with: declared in the header, or guessed from the content *)
+  Definition reader_newline (le_pv : option pv) (content : bytes) : res bytes :=
+    if pv_truthy le_pv
+    then match le_pv with Some (VStr le) => get_newline_for_type le (Some enc) | _ => Err EValue end
+    else do p <- guess_line_endings_bytes content (Some enc); Ok (snd p).
+
+  Lemma read_text_eval_gen : forall st rest indent le_pv le nl nlb t' b' lines,
+    In (le, nl) GenText.newline_formats ->
     enc0 nl = Some nlb -> indent_arg indent ->
     enc0 t' = Some b' -> suffixb N.eqb nl t' = true ->
     split_lines (bom ++ b') nlb true = Ok lines ->
     let body := indent_body indent (bom ++ b') lines in
+    reader_newline le_pv body = Ok nlb ->
     remaining (st_stream st) = body ++ rest ->
     (Z.of_nat (length body) <= sys_maxsize)%Z ->
-    read_content st (Z.of_nat (length body)) (Some (VStr enc)) (indent_pv indent) (Some (VStr le)) false =
+    read_content st (Z.of_nat (length body)) (Some (VStr enc)) (indent_pv indent) le_pv false =
       COk (PText t') {| st_stream := {| s_data := s_data (st_stream st); s_pos := s_pos (st_stream st) + length body |};
                         st_linenum := (st_linenum st + Z.of_nat (length lines))%Z; st_fnl := st_fnl st |}
     /\ remaining {| s_data := s_data (st_stream st); s_pos := s_pos (st_stream st) + length body |} = rest.
   Proof.
-    intros st rest indent le nl nlb t' b' lines Hv Hassoc Hnl Hind Hb' Hfin Hl body Hrem Hmax.
-    pose proof (assoc_get_In _ _ _ Hassoc) as Hin.
+    intros st rest indent le_pv le nl nlb t' b' lines Hin Hnl Hind Hb' Hfin Hl body Hrn Hrem Hmax.
     destruct (cl_nl _ _ _ _ laws le nl Hin) as [nlb' [Hn1 [Hn2 [Hn3 [Hn4 [Hn5 [Hn6 Hn7]]]]]]].
     rewrite Hnl in Hn1. injection Hn1 as <-.
     destruct (final_bytes nl nlb t' b' Hfin Hb' Hnl) as [q Hq].
@@ -381,13 +387,43 @@ Section WithCodec.
     assert (Hib : match indent_pv indent with
                   | Some (VInt z) => (z <? 0)%Z | Some (VStr _) => true | None => false end = false).
     { destruct Hind as [|k Hk]; cbn [indent_pv]; [reflexivity | lia]. }
-    rewrite Hib. cbn [pv_truthy]. destruct (le_values_facts le Hv) as [_ [Hnle _]]. rewrite Hnle.
-    unfold get_newline_for_type. cbn [enc_or_ascii]. rewrite Hassoc, (py_encode_laws nl nlb Hnl). cbn [bind].
-    rewrite Hn6, Hr1, Hr4. unfold d. rewrite (py_decode_laws t' b' Hb' Hd).
+    rewrite Hib. unfold reader_newline in Hrn. rewrite Hrn.
+    rewrite Hr1, Hr4. unfold d. rewrite (py_decode_laws t' b' Hb' Hd).
     assert (Hdn : py_decode nlb enc = Ok nl).
     { unfold py_decode. rewrite (is_nil_false nlb Hn2). destruct (cl_lookup _ _ _ _ laws) as [canon ->].
       rewrite Hn5. reflexivity. }
     rewrite Hdn, Hfin, Hr2. split; [reflexivity | exact Hs2].
+  Qed.
+
+  Lemma reader_newline_declared : forall le nl nlb content, In le GenText.line_endings_values ->
+    assoc_get beq le GenText.newline_formats = Some nl -> enc0 nl = Some nlb ->
+    reader_newline (Some (VStr le)) content = Ok nlb.
+  Proof.
+    intros le nl nlb content Hv Hassoc Hnl. unfold reader_newline. cbn [pv_truthy].
+    destruct (le_values_facts le Hv) as [_ [Hnle _]]. rewrite Hnle.
+    destruct (cl_nl _ _ _ _ laws le nl (assoc_get_In _ _ _ Hassoc)) as [nlb' [Hn1 [_ [_ [_ [_ [Hn6 _]]]]]]].
+    rewrite Hnl in Hn1. injection Hn1 as <-.
+    unfold get_newline_for_type. cbn [enc_or_ascii]. rewrite Hassoc, (py_encode_laws nl nlb Hnl). cbn [bind].
+    rewrite Hn6. reflexivity.
+  Qed.
+
+  Lemma read_text_eval : forall st rest indent le nl nlb t' b' lines,
+    In le GenText.line_endings_values -> assoc_get beq le GenText.newline_formats = Some nl ->
+    enc0 nl = Some nlb -> indent_arg indent ->
+    enc0 t' = Some b' -> suffixb N.eqb nl t' = true ->
+    split_lines (bom ++ b') nlb true = Ok lines ->
+    let body := indent_body indent (bom ++ b') lines in
+    remaining (st_stream st) = body ++ rest ->
+    (Z.of_nat (length body) <= sys_maxsize)%Z ->
+    read_content st (Z.of_nat (length body)) (Some (VStr enc)) (indent_pv indent) (Some (VStr le)) false =
+      COk (PText t') {| st_stream := {| s_data := s_data (st_stream st); s_pos := s_pos (st_stream st) + length body |};
+                        st_linenum := (st_linenum st + Z.of_nat (length lines))%Z; st_fnl := st_fnl st |}
+    /\ remaining {| s_data := s_data (st_stream st); s_pos := s_pos (st_stream st) + length body |} = rest.
+  Proof.
+    intros st rest indent le nl nlb t' b' lines Hv Hassoc Hnl Hind Hb' Hfin Hl body Hrem Hmax.
+    apply (read_text_eval_gen st rest indent (Some (VStr le)) le nl nlb t' b' lines); auto.
+    - apply assoc_get_In. exact Hassoc.
+    - apply (reader_newline_declared le nl nlb _ Hv Hassoc Hnl).
   Qed.
 End WithCodec.
 
@@ -400,7 +436,7 @@ Proof.
   apply (suffixb_app N.eqb N_eqb_spec).
 Qed.
 
-Theorem content_round_trip :
+Theorem content_round_trip_gen :
   forall enc c bom enc0, codec_laws enc c bom enc0 ->
   forall (s : wstate) (e t : text) (b : bytes) (lev indent : wv),
     c_enc ascii e = Some enc -> t <> [] -> enc0 t = Some b -> le_arg lev -> indent_arg indent ->
@@ -410,9 +446,11 @@ Theorem content_round_trip :
       split_lines (bom ++ b') nlb true = Ok lines /\
       body = indent_body indent (bom ++ b') lines /\
       prepare_content s (CText t) indent lev (WStr e) true = Ok (body, WStr (ascii_text le)) /\
-      forall st rest, remaining (st_stream st) = body ++ rest -> (Z.of_nat (length body) <= sys_maxsize)%Z ->
+      reader_newline enc (Some (VStr le)) body = Ok nlb /\
+      forall le_pv st rest, reader_newline enc le_pv body = Ok nlb ->
+        remaining (st_stream st) = body ++ rest -> (Z.of_nat (length body) <= sys_maxsize)%Z ->
         exists st',
-          read_content st (Z.of_nat (length body)) (Some (VStr enc)) (indent_pv indent) (Some (VStr le)) false
+          read_content st (Z.of_nat (length body)) (Some (VStr enc)) (indent_pv indent) le_pv false
             = COk (PText (final_text nl t)) st' /\
           remaining (st_stream st') = rest /\
           st_linenum st' = (st_linenum st + Z.of_nat (length lines))%Z /\
@@ -432,14 +470,72 @@ Proof.
   assert (Hdne : bom ++ b' <> []) by (rewrite Hq; destruct q; destruct nlb; cbn; congruence).
   destruct (C16_total_ok byte_eqb byte_eqb_spec (bom ++ b') nlb true Hdne Hn2) as [lines Hl].
   exists (indent_body indent (bom ++ b') lines), le, nl, nlb, b', lines.
-  repeat (split; [first [reflexivity | assumption]|]). split.
+  repeat (split; [first [reflexivity | assumption]|]). split; [|split].
   - rewrite (prepare_text_eval enc c bom enc0 laws s e t b He Ht Hb lev indent le nl nlb Hle Hind Hres Hnl).
     cbv zeta. rewrite Hd. unfold indent_body, split_lines in *. rewrite Hl. cbn [bind].
     destruct indent; try reflexivity. destruct (0 <? z)%Z; reflexivity.
-  - intros st rest Hrem Hmax.
-    destruct (read_text_eval enc c bom enc0 laws st rest indent le nl nlb (final_text nl t) b' lines
-                Hv Hassoc Hnl Hind Hb' (final_text_ends nl t) Hl Hrem Hmax) as [R1 R2].
+  - apply (reader_newline_declared enc c bom enc0 laws le nl nlb _ Hv Hassoc Hnl).
+  - intros le_pv st rest Hrn Hrem Hmax.
+    destruct (read_text_eval_gen enc c bom enc0 laws st rest indent le_pv le nl nlb (final_text nl t) b' lines
+                Hin Hnl Hind Hb' (final_text_ends nl t) Hl Hrn Hrem Hmax) as [R1 R2].
     eexists. split; [exact R1|]. cbn [st_stream st_linenum st_fnl]. auto.
+Qed.
+
+(* the form used for preambles: the writer puts line_endings=<le> in the header, the reader uses it *)
+Theorem content_round_trip :
+  forall enc c bom enc0, codec_laws enc c bom enc0 ->
+  forall (s : wstate) (e t : text) (b : bytes) (lev indent : wv),
+    c_enc ascii e = Some enc -> t <> [] -> enc0 t = Some b -> le_arg lev -> indent_arg indent ->
+    exists body le nl nlb b' lines,
+      resolve_le lev t = (le, nl) /\ In (le, nl) GenText.newline_formats /\
+      enc0 nl = Some nlb /\ enc0 (final_text nl t) = Some b' /\
+      split_lines (bom ++ b') nlb true = Ok lines /\
+      body = indent_body indent (bom ++ b') lines /\
+      prepare_content s (CText t) indent lev (WStr e) true = Ok (body, WStr (ascii_text le)) /\
+      forall st rest, remaining (st_stream st) = body ++ rest -> (Z.of_nat (length body) <= sys_maxsize)%Z ->
+        exists st',
+          read_content st (Z.of_nat (length body)) (Some (VStr enc)) (indent_pv indent) (Some (VStr le)) false
+            = COk (PText (final_text nl t)) st' /\
+          remaining (st_stream st') = rest /\
+          st_linenum st' = (st_linenum st + Z.of_nat (length lines))%Z /\
+          st_fnl st' = st_fnl st.
+Proof.
+  intros enc c bom enc0 laws s e t b lev indent He Ht Hb Hle Hind.
+  destruct (content_round_trip_gen enc c bom enc0 laws s e t b lev indent He Ht Hb Hle Hind)
+    as [body [le [nl [nlb [b' [lines [H1 [H2 [H3 [H4 [H5 [H6 [H7 [H8 H9]]]]]]]]]]]]]].
+  exists body, le, nl, nlb, b', lines. repeat (split; [assumption|]).
+  intros st rest. apply H9. exact H8.
+Qed.
+
+(* the form used for metadata sections: no line_endings in the header, the reader guesses the newline from
+   the bytes; [guess_agrees]: that guess is the newline the writer used (only the newline BYTES matter, not
+   the name of the kind) *)
+Definition guess_agrees (enc body nlb : bytes) : Prop :=
+  exists le', guess_line_endings_bytes body (Some enc) = Ok (le', nlb).
+
+Theorem content_round_trip_guess :
+  forall enc c bom enc0, codec_laws enc c bom enc0 ->
+  forall (s : wstate) (e t : text) (b : bytes) (lev indent : wv),
+    c_enc ascii e = Some enc -> t <> [] -> enc0 t = Some b -> le_arg lev -> indent_arg indent ->
+    exists body le nl nlb b' lines,
+      resolve_le lev t = (le, nl) /\ In (le, nl) GenText.newline_formats /\
+      enc0 nl = Some nlb /\ enc0 (final_text nl t) = Some b' /\
+      split_lines (bom ++ b') nlb true = Ok lines /\
+      body = indent_body indent (bom ++ b') lines /\
+      prepare_content s (CText t) indent lev (WStr e) true = Ok (body, WStr (ascii_text le)) /\
+      forall st rest, guess_agrees enc body nlb -> remaining (st_stream st) = body ++ rest -> (Z.of_nat (length body) <= sys_maxsize)%Z ->
+        exists st',
+          read_content st (Z.of_nat (length body)) (Some (VStr enc)) (indent_pv indent) None false
+            = COk (PText (final_text nl t)) st' /\
+          remaining (st_stream st') = rest /\
+          st_linenum st' = (st_linenum st + Z.of_nat (length lines))%Z /\
+          st_fnl st' = st_fnl st.
+Proof.
+  intros enc c bom enc0 laws s e t b lev indent He Ht Hb Hle Hind.
+  destruct (content_round_trip_gen enc c bom enc0 laws s e t b lev indent He Ht Hb Hle Hind)
+    as [body [le [nl [nlb [b' [lines [H1 [H2 [H3 [H4 [H5 [H6 [H7 [H8 H9]]]]]]]]]]]]]].
+  exists body, le, nl, nlb, b', lines. repeat (split; [assumption|]).
+  intros st rest [le' Hg]. apply H9. unfold reader_newline. cbn [pv_truthy]. rewrite Hg. reflexivity.
 Qed.
 
 (* ------------------------------------------------------------------------------------------------ *)
